@@ -13,6 +13,7 @@ WHAT = {
   'fake': 'datapoints buffered while no destination is available were lost or duplicated',
   'batch': 'a message carried more than MAX_DATAPOINTS_PER_MESSAGE datapoints (or none)',
   'stopflush': 'an orderly stop closed a connection whose queue still held datapoints',
+  'f19': 'during an orderly stop a connection is lost and the dynamic router removes the destination: the queued datapoints it re-routes are dropped (or parked at a destination that has already stopped) instead of being flushed after a reconnect',
   'misrouted': 'a datapoint was routed to no destination although one is configured (or to one that is not): it is held back / dropped instead of queued',
   'abandoned': 'a destination whose queue still holds datapoints is neither connected nor connecting nor waiting to retry: they will never be written',
   'undelivered': 'a connected, unpaused destination holds queued datapoints but no send is scheduled: they will never be written',
@@ -84,6 +85,13 @@ def report(ctx, traces, origins, verdicts, vflags):
       ctx.cov['traces_with_paused_receivers'] = ctx.cov.get('traces_with_paused_receivers', 0) + 1
     fl = verdicts[i]
     for f, at in sorted(fl):
+      if f in ('fake-stop', 'abandoned-stop') and 'fake' in vflags:
+        # listed finding F19 (C07): a connection is lost while the orderly stop waits for its queue; the dynamic router
+        # removes the destination and re-routes the queue into a manager that is being dismantled
+        ctx.violation(WHAT['f19'] + ' (event %d: %s %s)' % (at, evs[at - 1]['e'], evs[at - 1]['arg']),
+                      dict(origin=origins[i], flags=sorted(fl), events=[[e['e'], e['arg']] for e in evs[1:]], at=at,
+                           before=evs[at - 2]['p'] if at >= 2 else None, after=evs[at - 1]['p']), signature='f19')
+        continue
       if f in vflags:
         ctx.violation(WHAT[f] + ' (event %d: %s %s)' % (at, evs[at - 1]['e'], evs[at - 1]['arg']),
                       dict(origin=origins[i], flags=sorted(fl), events=[[e['e'], e['arg']] for e in evs[1:]],
@@ -209,6 +217,17 @@ def run_traces(ctx, rm, cfg, nsim, nrandom, nevents, seed_base, maxitems=6, maxc
       tr, skipped = relaysys.scripted_run(rm, cfg, sc, settle=True, max_settle=400)
       traces.append(tr)
       origins.append(dict(kind='replayed TLC behaviour', cfg=cfg, script=[list(x) for x in sc], skipped=skipped, directed='a full destination is removed, the others drain'))
+      ctx.evaluations += 1
+  if cfg.get('dynamic') and nd == 2 and cfg.get('max_retries', 1) == 1 and cfg.get('maxq') == 4 and not cfg.get('ratio'):
+    # witness of the listed finding F19 (found by the thorough tier): the orderly stop has begun; a destination that had
+    # finished stopping is re-added to the router by a late reconnect; the other destination's connection is lost and the
+    # dynamic router re-routes its queue to the destination whose factory is gone
+    wseed, ww = 544404605, dict(Arrive=10, SendTimer=2, TPause=2)
+    wcfg = dict(nd=2, maxq=4, mpm=2, flow=True, dynamic=True, max_retries=1, nr=1)
+    if all(cfg.get(k_) == v_ for k_, v_ in wcfg.items()):
+      tr = relaysys.random_run(rm, cfg, random.Random(wseed), 120, settle=True, weights=ww)
+      traces.append(tr)
+      origins.append(dict(kind='random history', cfg=cfg, rseed=wseed, weights=ww, nevents=120, directed='F19 witness'))
       ctx.evaluations += 1
   if cfg.get('dynamic') and nd >= 2 and cfg.get('flow', True):
     # directed (adaptive): ONE destination is full behind a paused transport while the others keep flowing; it is lost and
